@@ -10,7 +10,8 @@ for p in props:
     pid = p['id']
     path = os.path.join(HERE, 'checks', pid.lower() + '.py')
     meta = None
-    if os.path.exists(path):
+    ready = set(open(os.path.join(HERE, 'tools', 'ready.txt')).read().split())
+    if os.path.exists(path) and pid in ready:
         src = open(path).read()
         ns = {}
         # MANIFEST_ENTRY is a plain dict literal at module level
